@@ -53,6 +53,7 @@ class Module(object):
         self.assigns = {}
         self.all_names = None
         self.is_pkg = path.endswith("__init__.py")
+        strip_noise(self.tree)
         self.renamed_locals = normalise_locals(self.tree, rel)
         self._collect(self.tree.body)
         self._pin_map()
@@ -641,3 +642,36 @@ def normalise_locals(tree, rel):
                 n.id = mapping[n.id]
         done[qual] = mapping
     return done
+
+
+
+# --------------------------------------------------------------------------
+# Effect-free statements are not part of any rule
+# --------------------------------------------------------------------------
+NOISE_CALLS = ("logging.debug", "logging.info", "logging.warning", "logging.log", "logger.debug", "logger.info", "logger.warning", "log.debug", "log.info")
+
+
+def _is_noise(s, first):
+    if isinstance(s, ast.Pass):
+        return True
+    if isinstance(s, ast.Expr) and isinstance(s.value, ast.Constant) and not (first and isinstance(s.value.value, str)):
+        return True  # stray constant expression (not the docstring)
+    if isinstance(s, ast.Expr) and isinstance(s.value, ast.Call) and dotted(s.value.func) in NOISE_CALLS:
+        return True
+    return False
+
+
+def strip_noise(tree):
+    """remove `pass`, stray constant expressions and logging calls from every block that
+    keeps at least one other statement (they have no effect on any decided clause, and
+    rules that look at the first/last statement of a block should not see them)"""
+    for node in ast.walk(tree):
+        for field in ("body", "orelse", "finalbody"):
+            blk = getattr(node, field, None)
+            if not isinstance(blk, list) or not blk or not all(isinstance(x, ast.stmt) for x in blk):
+                continue
+            is_def = field == "body" and isinstance(node, (ast.FunctionDef, ast.AsyncFunctionDef, ast.ClassDef, ast.Module))
+            keep = [x for i, x in enumerate(blk) if not _is_noise(x, is_def and i == 0)]
+            real = [x for x in keep if not (isinstance(x, ast.Expr) and isinstance(x.value, ast.Constant))]
+            if real and len(keep) != len(blk):
+                blk[:] = keep
